@@ -55,11 +55,13 @@ pub fn run(tier: Tier, filter: Filter) -> i32 {
     let start = Instant::now();
     refbin::self_test();
     // a process-wide setting; C06 is not about the limit, keep allocations small
-    apache_avro::util::max_allocation_bytes(1 << 20);
+    // (also bounds the per-block loop over zero-width items, which dominates the run time otherwise)
+    apache_avro::util::max_allocation_bytes(1 << 12);
     let (depth, n) = match tier {
         Tier::Quick => (2, 4),
-        Tier::Thorough => (3, 5),
+        Tier::Thorough => (3, 6),
     };
+    DESER_BU_LEN.store(std::env::var("VERIF_C06_DESER_LEN").ok().and_then(|s| s.parse().ok()).unwrap_or(n), std::sync::atomic::Ordering::Relaxed);
     let corpus = corpus::build(depth, false);
     let bu = byte_universe(n);
     let st = corpus
@@ -71,13 +73,24 @@ pub fn run(tier: Tier, filter: Filter) -> i32 {
         id: "C06".into(),
         tier,
         level: "model_checking",
-        rule: format!("cases = schema in SU({depth}) x (all byte strings of length <= {n} over {{00,01,02,03,7f,80,fe,ff}} + every truncation and every single-byte substitution of every valid encoding of the C01 value universe); a class is (schema shape, decode outcome, consumed length) for inputs on which decoding returned Ok"),
+        rule: format!("cases = schema in SU({depth}) x (all byte strings of length <= {n} over {{00,01,02,03,7f,80,fe,ff}} + every truncation and every single-byte substitution of every valid encoding of the C01 value universe); a class is (schema shape, decode outcome, consumed length) for inputs on which decoding returned Ok. Each input is also read by the schema-aware deserializer into a universal deserialize_any type (all truncations/substitutions, and byte strings up to length 3 quick / 4 thorough): a truncated datum must be an error there too, a datum the reference decoder and the generic decoder accept must be accepted with the same length, two Ok verdicts consume the same bytes"),
         bounds: json!({"schema_depth": depth, "byte_string_len": n, "byte_alphabet": "00 01 02 03 7f 80 fe ff", "schemas": corpus.len()}),
         assumptions: vec!["'truncated' is decided by the independent strict decoder refbin (it ran out of input)".into()],
         exhaustive: filter.schema.is_none(),
         extra: json!({}),
     };
     ev::finish(rep, st, start)
+}
+
+/// With VERIF_VERBOSE: names the schemas whose sweep took more than a second.
+struct SlowNote(usize, String, Instant);
+
+impl Drop for SlowNote {
+    fn drop(&mut self) {
+        if self.2.elapsed().as_secs_f64() > 1.0 && std::env::var("VERIF_VERBOSE").is_ok() {
+            eprintln!("slow schema {} ({:.1}s): {}", self.0, self.2.elapsed().as_secs_f64(), ev::trunc(&self.1, 200));
+        }
+    }
 }
 
 fn schema_sweep(sc: &Sc, bu: &[Vec<u8>], filter: &Filter) -> Stats {
@@ -89,6 +102,8 @@ fn schema_sweep(sc: &Sc, bu: &[Vec<u8>], filter: &Filter) -> Stats {
             return st;
         }
     };
+    let t0 = Instant::now();
+    let _slow = SlowNote(sc.idx, sc.text.clone(), t0);
     let mut idx = 0usize;
     let mut one = |bytes: &[u8], origin: &str, st: &mut Stats| {
         let my = idx;
@@ -118,12 +133,130 @@ fn schema_sweep(sc: &Sc, bu: &[Vec<u8>], filter: &Filter) -> Stats {
     st
 }
 
+/// Universal target of the schema-aware deserializer: it asks for `deserialize_any`, so the
+/// deserializer follows the schema, and it accepts whatever it is shown. Only framing is observed.
+pub struct Dyn;
+
+impl<'de> serde::Deserialize<'de> for Dyn {
+    fn deserialize<D: serde::Deserializer<'de>>(d: D) -> Result<Dyn, D::Error> {
+        d.deserialize_any(DynVisitor)
+    }
+}
+
+struct DynVisitor;
+
+macro_rules! dyn_scalar {
+    ($($f:ident: $t:ty),*) => { $(fn $f<E: serde::de::Error>(self, _: $t) -> Result<Dyn, E> { Ok(Dyn) })* };
+}
+
+impl<'de> serde::de::Visitor<'de> for DynVisitor {
+    type Value = Dyn;
+    fn expecting(&self, f: &mut std::fmt::Formatter) -> std::fmt::Result {
+        f.write_str("anything")
+    }
+    dyn_scalar!(visit_bool: bool, visit_i8: i8, visit_i16: i16, visit_i32: i32, visit_i64: i64, visit_i128: i128, visit_u8: u8, visit_u16: u16, visit_u32: u32, visit_u64: u64, visit_u128: u128, visit_f32: f32, visit_f64: f64, visit_char: char, visit_str: &str, visit_string: String, visit_bytes: &[u8], visit_byte_buf: Vec<u8>);
+    fn visit_none<E: serde::de::Error>(self) -> Result<Dyn, E> {
+        Ok(Dyn)
+    }
+    fn visit_unit<E: serde::de::Error>(self) -> Result<Dyn, E> {
+        Ok(Dyn)
+    }
+    fn visit_some<D: serde::Deserializer<'de>>(self, d: D) -> Result<Dyn, D::Error> {
+        <Dyn as serde::Deserialize>::deserialize(d)
+    }
+    fn visit_newtype_struct<D: serde::Deserializer<'de>>(self, d: D) -> Result<Dyn, D::Error> {
+        <Dyn as serde::Deserialize>::deserialize(d)
+    }
+    fn visit_seq<A: serde::de::SeqAccess<'de>>(self, mut a: A) -> Result<Dyn, A::Error> {
+        while a.next_element::<Dyn>()?.is_some() {}
+        Ok(Dyn)
+    }
+    fn visit_map<A: serde::de::MapAccess<'de>>(self, mut a: A) -> Result<Dyn, A::Error> {
+        while a.next_entry::<Dyn, Dyn>()?.is_some() {}
+        Ok(Dyn)
+    }
+    fn visit_enum<A: serde::de::EnumAccess<'de>>(self, a: A) -> Result<Dyn, A::Error> {
+        use serde::de::VariantAccess;
+        let (_, variant) = a.variant::<Dyn>()?;
+        variant.unit_variant()?;
+        Ok(Dyn)
+    }
+}
+
+/// Longest byte-universe string the deserializer clause is applied to (3 quick, 4 thorough).
+static DESER_BU_LEN: std::sync::atomic::AtomicUsize = std::sync::atomic::AtomicUsize::new(3);
+
+fn deser_bu_len() -> usize {
+    DESER_BU_LEN.load(std::sync::atomic::Ordering::Relaxed)
+}
+
+/// Bytes the schema-aware deserializer consumes for one datum, or its error.
+fn deser_decode(schema: &apache_avro::Schema, bytes: &[u8]) -> Result<usize, String> {
+    match guarded(|| {
+        let r = apache_avro::reader::datum::GenericDatumReader::builder(schema).build()?;
+        let mut cur: &[u8] = bytes;
+        r.read_deser::<Dyn>(&mut cur)?;
+        Ok::<_, apache_avro::Error>(bytes.len() - cur.len())
+    }) {
+        Ok(Ok(n)) => Ok(n),
+        Ok(Err(e)) => Err(format!("error: {e}")),
+        Err(p) => Err(format!("panic: {p}")),
+    }
+}
+
+/// The clause "the two decoders agree on whether a byte string is a complete datum", judged on framing:
+/// a truncated datum is an error for both; a datum the strict reference decoder and the generic decoder
+/// accept is accepted by the deserializer with the same length; two Ok verdicts consume the same bytes.
+/// Inputs only one of them rejects for its *content* (UUID text, big-decimal payload) give no verdict.
+fn judge_deser(sc: &Sc, bytes: &[u8], origin: &str, vi: usize, generic: &Result<(apache_avro::types::Value, usize), String>, de: &Result<usize, String>, strict: &Result<V, DecErr>, strict_len: usize, st: &mut Stats) {
+    st.transitions += 1;
+    let order = 1u64 << 60 | (sc.idx as u64) << 32 | vi as u64;
+    let failed: Option<&str> = match (de, generic, strict) {
+        (Err(e), _, _) if e.starts_with("panic") => None, // C05's subject
+        (Ok(_), _, Err(DecErr::Eof)) => Some("input is a truncated datum but the schema-aware deserializer returned Ok"),
+        (Ok(dn), Ok((_, gn)), _) if dn != gn => Some("generic decoder and schema-aware deserializer consume different lengths for the same input"),
+        (Err(_), Ok((_, gn)), Ok(_)) if *gn == strict_len => Some("a complete datum (reference decoder and generic decoder agree) is rejected by the schema-aware deserializer"),
+        _ => None,
+    };
+    match failed {
+        None => st.outcome(if de.is_ok() { "deser-ok-agrees" } else { "deser-err" }),
+        Some(clause) => {
+            st.outcome("violation:decoders-disagree");
+            st.violate(
+                order,
+                clause,
+                json!({"schema": sc.json, "bytes": hex(bytes), "origin": origin, "generic_decoder": ev::trunc(&format!("{generic:?}"), 200), "schema_aware_deserializer": format!("{de:?}"), "strict_reference": ev::trunc(&format!("{strict:?}"), 200), "reference_consumed": strict_len}),
+                json!({"schema_idx": sc.idx, "value_idx": vi, "schema": sc.json, "bytes": hex(bytes)}),
+            );
+        }
+    }
+}
+
 fn judge(sc: &Sc, schema: &apache_avro::Schema, bytes: &[u8], origin: &str, vi: usize, st: &mut Stats) {
     let order = (sc.idx as u64) << 32 | vi as u64;
     st.states += 1;
     st.evaluations += 1;
     st.transitions += 1;
     let lib = lib_decode(schema, bytes);
+    // the deserializer visits zero-width items one by one up to the allocation limit per block (about 1 us
+    // each), so its clause is applied to every truncation/substitution of valid data and to the byte
+    // universe up to length 3 (quick) / 4 (thorough)
+    let de = if origin != "BU" || bytes.len() <= deser_bu_len() { Some(deser_decode(schema, bytes)) } else { None };
+    if lib.is_err() && !matches!(de, Some(Ok(_))) {
+        // both decoders reject: nothing to judge (and the reference decoder is not run on hostile counts)
+        if de.is_some() {
+            st.transitions += 1;
+            st.outcome("deser-err");
+        }
+        st.outcome(if matches!(&lib, Err(e) if e.starts_with("panic")) { "panic(C05)" } else { "err" });
+        return;
+    }
+    // strict reference verdict on the same input
+    let mut c = Cur::new(bytes);
+    let strict = refbin::decode(&mut c, &sc.s, &sc.env);
+    if let Some(de) = &de {
+        judge_deser(sc, bytes, origin, vi, &lib, de, &strict, c.pos.min(bytes.len()), st);
+    }
     let (lv, ln) = match lib {
         Ok(x) => x,
         Err(e) => {
@@ -137,9 +270,6 @@ fn judge(sc: &Sc, schema: &apache_avro::Schema, bytes: &[u8], origin: &str, vi: 
     };
     let case = |extra: serde_json::Value| json!({"schema": sc.json, "bytes": hex(bytes), "origin": origin, "library_value": ev::trunc(&format!("{lv:?}"), 300), "consumed": ln, "detail": extra});
     let replay = json!({"schema_idx": sc.idx, "value_idx": vi, "schema": sc.json, "bytes": hex(bytes)});
-    // strict reference verdict on the same input
-    let mut c = Cur::new(bytes);
-    let strict = refbin::decode(&mut c, &sc.s, &sc.env);
     let truncated = matches!(strict, Err(DecErr::Eof));
     // oracle clauses
     let validates = guarded(|| lv.validate(schema)).unwrap_or(false);
